@@ -849,13 +849,26 @@ impl G {
             let len = *self.rng.pick(&[0usize, 1, 700, 3000, 4088, 5000]);
             fs.extend(self.content(ch, 0, &tag, len, i + 1));
         }
-        match self.rng.below(3) {
+        match self.rng.below(5) {
             0 => self.feed_stream(fs, Term::Block),
             1 => {
                 let cut = self.rng.range(1, fs.len() as u64 - 1) as usize;
                 let rest = fs.split_off(cut);
                 self.feed_stream(fs, Term::Block);
                 self.feed_stream(rest, Term::Block);
+            }
+            2 => {
+                // the stream ends (or breaks, or turns to garbage) in the same wake-up, right
+                // behind the last complete frame: every frame before it is still acted on
+                let t = self.rng.pick(&[Term::Eof, Term::IoErr, Term::Malformed]).clone();
+                self.feed_stream(fs, t);
+            }
+            3 => {
+                let cut = self.rng.range(1, fs.len() as u64 - 1) as usize;
+                let rest = fs.split_off(cut);
+                self.feed_stream(fs, Term::Block);
+                let t = self.rng.pick(&[Term::Eof, Term::IoErr, Term::Malformed]).clone();
+                self.feed_stream(rest, t);
             }
             _ => {
                 // ... and the connection's end right behind it
@@ -1053,9 +1066,20 @@ impl G {
             if self.w.errored || self.w.dead {
                 return;
             }
+            // the server is slow to answer: the client's own heartbeat timer expires inside the
+            // close handshake - nothing may follow the Close
+            let mut tx_fired = false;
+            if self.rng.chance(1, 10) {
+                tx_fired = true;
+                self.flush_all();
+                self.w.event_heartbeat_tx();
+                self.w.peek_out();
+                self.flush_all();
+                self.w.is_done();
+            }
             // the server never answers the Close and stays silent: with heartbeats on, the receive
             // timer ends the wait
-            if self.rng.chance(1, 14) {
+            if !tx_fired && self.rng.chance(1, 14) {
                 self.w.event_heartbeat_missed();
                 self.w.teardown();
                 return;
@@ -1086,6 +1110,15 @@ impl G {
             self.feed_stream(fs, Term::Block);
             self.w.peek_out();
             self.w.is_done();
+            // the transport is slow to take the CloseOk and the heartbeat timer expires meanwhile:
+            // CloseOk stays the last frame
+            if self.rng.chance(1, 10) {
+                if self.rng.boolean() {
+                    self.flush_all();
+                }
+                self.w.event_heartbeat_tx();
+                self.w.peek_out();
+            }
             // submitted after the close point
             if let Some(&ch) = self.w.handle_q.keys().next() {
                 self.client_send(ch);
